@@ -179,6 +179,11 @@ def run(tier='quick'):
                             'inside the crate, and on 2.x the entry chain is not respliced when such an entry is removed')
         _c07.liveness_guard(prog, cg, eff, chk, K7, qn, ('crate', 'list', 'playlist'), 'own',
                             'a membership is written for a crate that does not exist')
+    K8 = chk.rule('K8', 'what counts as a track is decided the same way everywhere (1.x): every statement that lists the '
+                        'Track rows or tests one for existence carries the row filter of database::tracks() - from 1.17.0 '
+                        'on a trigger keeps a placeholder row (path NULL) that tracks() leaves out; a probe without the '
+                        'filter accepts its id as a track', floor=4)
+    track_row_filter_agreement(prog, eff, chk, K8)
     return chk.finish('value-flow interpretation of the membership operations of both implementations '
                       '(id kinds of bound values, event order), reference graph and triggers read from the DDL '
                       'of every schema version')
@@ -228,6 +233,44 @@ def _reference_defs(prog):
                     out.setdefault((tuple(r.version), kind, nm), set()).add(sqlmod.norm_tokens(st.toks))
     _REFDEFS[key] = out
     return out
+
+
+def track_row_filter_agreement(prog, eff, chk, K8):
+    import re as _re
+    deciders = []
+    for f in sorted(prog.functions.values(), key=lambda x: (x.file or '', x.line)):
+        if f.body is None or f.is_pattern or '/engine/v1/' not in (f.file or ''):
+            continue
+        for st in eff.sites(f):
+            si = st.stored_in
+            if si is None or si.kind != 'select' or (si.table or '').lower() != 'track':
+                continue
+            cols = [c.lower().replace(' ', '') for c in (si.columns or [])]
+            if not cols or not all(c in ('id', 'count(*)') for c in cols):
+                continue        # reads columns of a row it was given, does not decide membership
+            w = si.where.text().lower() if si.where is not None else ''
+            notnull = set(_re.findall(r'(\w+)\s+is\s+not\s+null', w))
+            equal = set(_re.findall(r'(\w+)\s*=\s*\?', w))
+            deciders.append((f, st, notnull, equal, w))
+    listing = [d for d in deciders if not d[3]]        # no key: the listing of all tracks
+    if not listing:
+        raise AnalysisBroken('K8: the statement that lists all tracks was not found')
+    want = set()
+    for d in listing:
+        want |= d[2]
+    for f, st, notnull, equal, w in deciders:
+        chk.analysed(f)
+        short = f.qualname.replace('djinterop::engine::', '')
+        inst = '%s: SELECT %s FROM Track WHERE %s' % (short, ', '.join(st.stored_in.columns or []), w or '-')
+        missing = sorted(c for c in want if c not in notnull and c not in equal)
+        if missing:
+            chk.violation(K8, '%s|no %s IS NOT NULL' % (short, missing[0]), locstr(st.node),
+                          '%s lacks the row filter of the track listing (%s IS NOT NULL): the placeholder row that '
+                          'trigger_after_delete_Track keeps above the highest id (1.17.0, 1.18.0) passes this test - '
+                          'track_by_id / is_valid report it as a track and add_track makes it a member although '
+                          'database::tracks() does not list it' % (inst, missing[0]))
+        else:
+            chk.ok(K8, inst, locstr(st.node))
 
 
 def tables_match_reference(prog, chk, rid, tables, gens=(1, 2)):
